@@ -443,8 +443,12 @@ public:
 
   friend bool operator<(const TwoLevelRandIter& left,
                         const TwoLevelRandIter& right) {
-    return ((left.m_outer == right.m_outer) ? (left.m_inner < right.m_inner)
-                                            : (left.m_outer < right.m_outer));
+    if (left.m_outer != right.m_outer)
+      return left.m_outer < right.m_outer;
+    // both at the outer end: equal, whatever the (stale) inner iterators say
+    if (left.outerAtEnd())
+      return false;
+    return left.m_inner < right.m_inner;
   }
 
   friend bool operator<=(const TwoLevelRandIter& left,
